@@ -614,6 +614,7 @@ def node_class_strings():
         'Pow': ['2 ** 3', '9 ** 9 ** 9'], 'FloorDiv': ['7 // 2'], 'LShift': ['1 << 100'], 'RShift': ['1 >> 1'], 'BitOr': ['1 | 2'],
         'BitXor': ['1 ^ 2'], 'BitAnd': ['1 & 2'], 'MatMult': ['rows @ rows'], 'Invert': ['~amount'], 'UAdd': ['+description'],
         'Is': ['contains is contains'], 'IsNot': ['contains is not len'], 'Mod': ['"%s" % contains', '5 % 0'], 'Div': ['1 / 0'],
+        'NameLikeBuiltin': ['today', 'now', 'Today', '"%s" % today', 'date <= today', 'this_year', 'current_month', 'date_type', 'datetime', 'time', 'os', 'sys', 're', 'math'],
         'keyword': ['split(description, delimiter="-", index=0)', 'round(number=1.5)', 'contains("NETFLIX", exact=True)', 'len(rows, key=lambda r: r)',
                     'abs(amount, x=__import__("os"))', 'contains("x", **field)', 'description.upper(k={})', 'round(amount, ndigits=[1][0])', 'trim(description, f=f"{amount}")'],
     }
@@ -1049,7 +1050,8 @@ def loader_rows_probe(rec, ep):
         os.makedirs(os.path.join(tmpd, 'config'))
         os.makedirs(os.path.join(tmpd, 'data'))
         with open(os.path.join(tmpd, 'data', 'rows.csv'), 'w') as f:
-            f.write('Date,Amount,Item,Qty\n2025-01-02,12.00,NETFLIX,1\n2025-01-03,5,star,0\n2025-01-04,7.5,short\n')          # the last line lacks a column
+            f.write('Date,Amount,Item,Qty\n2025-01-02,12.00,NETFLIX,1\n2025-01-03,5,star,0\n2025-01-04,7.5,short\n'          # the last line lacks a column
+                    '2025-01-05  Wed,3.00,daynamed,1\n2025-01-06 Thu,4.00,daynamed2,1\nn/a,6.00,nodate,1\n')      # date cells with a day name after the date, and no date at all
         with open(os.path.join(tmpd, 'data', 'orders.csv'), 'w') as f:
             f.write('Date,Amount,Item,Qty\n2025-01-09,100.0,COSTCO,2\n')
         with open(os.path.join(tmpd, 'data', 'card.csv'), 'w') as f:
@@ -1078,6 +1080,14 @@ def loader_rows_probe(rec, ep):
     if set(loaded) != {'rows', 'orders'}:
         rec.unsure('loader rows probe: sources loaded: %s' % sorted(loaded))
         return
+    for k, v in loaded.items():
+        for r in v:
+            for col, val in r.items():
+                rec.count('loader_cell_values_inspected')
+                if not (val is None or type(val) in (str, int, float, bool, datetime.date, datetime.datetime)):
+                    rec.violation('loader-row-holds-a-non-data-value', f'source {k}: column {col!r} of a row the loader built holds {type(val).__name__}: {str(val)[:80]!r} '
+                                  f'(every rule expression that reads it gets that object)', {'kind': 'loader-rows'})
+                    return
     plain = {k: [dict(r) for r in v] for k, v in loaded.items()}
     for e in LOADER_EXPRS:
         for slot in ('tag', 'field'):
